@@ -107,3 +107,11 @@ func VerifLineOp(op string, w int, cur [3]uint32, runs []VerifRun, cached int, x
 	res.Row = verifSnapSpanRow(&line, mode)
 	return res
 }
+
+// VerifSplitRunToFit exposes splitRunToFit (rune text mode).
+func VerifSplitRunToFit(text string, limit int) (head string, headWidth int, rest string, restWidth int, ok bool) {
+	return splitRunToFit(text, limit, TextReadModeRune)
+}
+
+// VerifReplaceInvalidUTF8 exposes replaceInvalidUTF8.
+func VerifReplaceInvalidUTF8(text string) string { return replaceInvalidUTF8(text) }
